@@ -233,7 +233,7 @@ def explore(check: Check, tier: str, seed: int, budget_s=None) -> Acc:
 # ------------------------------------------------------------------ known findings
 
 def load_known():
-    p = os.path.join(VERIF, 'known_findings.json')
+    p = os.environ.get('VERIF_KNOWN') or os.path.join(VERIF, 'known_findings.json')
     if not os.path.exists(p): return {'known': [], 'fixed': []}
     return json.load(open(p))
 
